@@ -32,9 +32,17 @@ var errInjected = errors.New("injected failure")
 
 type failKV struct {
 	kv.Base
-	fail   bool
-	failed bool
-	saves  []string
+	fail     bool
+	failed   bool
+	failLoad bool
+	saves    []string
+}
+
+func (f *failKV) Load(k string) (string, error) {
+	if f.failLoad && strings.HasPrefix(k, "replication_mode") {
+		return "", errInjected
+	}
+	return f.Base.Load(k)
 }
 
 func (f *failKV) Save(k, v string) error {
@@ -112,6 +120,8 @@ func (o op) String() string {
 		s = "UpdateConfig(" + o.arg + ")"
 	case "merge":
 		s = fmt.Sprintf("region %d absorbs the region after it", o.id)
+	case "restart":
+		s = "a new leader builds its manager from the storage"
 	}
 	if o.fault != "" {
 		s += " [" + o.fault + " fails]"
@@ -124,6 +134,7 @@ type model struct {
 	nregions int
 	gapAt    int // region index that does not exist (-1: contiguous key space)
 	batch    int
+	stg      *core.Storage
 	cl       *clusterW
 	fk       *failKV
 	rp       *replicater
@@ -206,6 +217,13 @@ func (m *model) Enabled(i int) bool {
 	return true
 }
 
+// withRestarts adds the leader change: a new manager built from the same storage, also with the read of
+// the persisted status failing.
+func withRestarts(m *model) *model {
+	m.ops = append(m.ops, op{kind: "restart"}, op{kind: "restart", fault: "load"})
+	return m
+}
+
 // withMerges adds the merge of every pair of neighbouring regions (each region takes part in at most one).
 func withMerges(m *model) *model {
 	m.merges = true
@@ -258,6 +276,7 @@ func (m *model) Reset() {
 	m.cl = &clusterW{Cluster: mockcluster.NewCluster(ctx, config.NewTestOptions())}
 	m.fk = &failKV{Base: kv.NewMemoryKV()}
 	st := core.NewStorage(m.fk)
+	m.stg = st
 	m.rp = &replicater{}
 	m.conf = baseConf("dr-auto-sync", "zone")
 	for id, dc := range stores {
@@ -398,6 +417,21 @@ func (m *model) Apply(i int) *hist.Violation {
 		}
 		m.mm.VerifTickDR()
 		m.timedOut = true
+	case "restart":
+		m.fk.failLoad = o.fault == "load"
+		mm2, err := replication.NewReplicationModeManager(m.conf, m.stg, m.cl, m.rp)
+		m.fk.failLoad = false
+		if err != nil {
+			if o.fault == "" {
+				return &hist.Violation{Key: "restart-failed", Msg: "after " + o.String() + ": " + err.Error()}
+			}
+			break // the new leader gives up; the state stays with the storage (and the old manager in this model)
+		}
+		m.mm = mm2
+		m.scanMark, m.scanAbs = 0, ""
+		if now := m.served(); before.mode == "dr-auto-sync" && now != before {
+			return &hist.Violation{Key: "restart-lost-state", Msg: fmt.Sprintf("after %s: the new manager serves %+v, the persisted (and previously served) status was %+v", o, now, before)}
+		}
 	case "merge":
 		// the surviving region covers both ranges; it counts as having reported integrity only if both had
 		a, b := int(o.id), int(o.id)+1
@@ -595,6 +629,8 @@ func main() {
 			{Name: "3regions/replicas2+2", Tiers: "quick", Depth: 5, NewModel: func() hist.Model { m := newModel(3, -1, 2, false, false); m.pr, m.dr = 2, 2; return wrap{m} }},
 			{Name: "3regions+gap-at-start/from-sync-recover", Tiers: "quick", Depth: 5, NewModel: func() hist.Model { return wrap{from(newModel(3, 0, 2, false, false), "sync_recover")} }},
 			{Name: "3regions+merges/from-sync-recover", Tiers: "quick", Depth: 7, NewModel: func() hist.Model { return wrap{withMerges(onlyGoodReports(from(newModel(3, -1, 2, false, false), "sync_recover")))} }},
+			{Name: "2regions+restarts", Tiers: "quick", Depth: 5, NewModel: func() hist.Model { return wrap{withRestarts(newModel(2, -1, 2, false, false))} }},
+			{Name: "2regions+restarts/from-async", Tiers: "quick", Depth: 4, NewModel: func() hist.Model { return wrap{withRestarts(from(newModel(2, -1, 2, true, false), "async"))} }},
 			{Name: "3regions+gap", Tiers: "quick", Depth: 5, NewModel: func() hist.Model { return wrap{newModel(3, 1, 2, false, false)} }},
 			{Name: "2regions+faults+config", Tiers: "quick", Depth: 4, NewModel: func() hist.Model { return wrap{newModel(2, -1, 1024, true, true)} }},
 			{Name: "5regions/batch3/from-sync-recover", Tiers: "quick", Depth: 8, NewModel: func() hist.Model { return wrap{from(newModel5(), "sync_recover")} }},
